@@ -19,6 +19,7 @@ type Profile struct {
 	Newline                                                                            int // percent of terminals that are a newline
 	SharedPrefix                                                                       int // percent of choices whose alternatives share a prefix
 	MaxRune                                                                            bool
+	CaptureOnly                                                                        int  // percent of backtrack points (choices, lookaheads, optional/repeated elements) whose operand is built from terminals and captures only
 	MemoSplice                                                                         int  // percent of grammars with a re-enter-after-overwrite choice (memo splice)
 	RefHeavy                                                                           bool // rule bodies are sequences of references and captures
 	Dispatch                                                                           int  // percent of choices built as first-character dispatch (what -switch rewrites)
@@ -27,10 +28,10 @@ type Profile struct {
 var Profiles = map[string]Profile{
 	"plain":      {Name: "plain", MinRules: 2, MaxRules: 6, Depth: 3, AltMin: 2, AltMax: 4, SeqMax: 4, WTerm: 22, WSeq: 20, WAlt: 18, WOpt: 6, WStar: 6, WPlus: 6, WAnd: 4, WNot: 4, WCap: 6, WRef: 8, WAct: 6, WPred: 2, WState: 1, Hostile: 8, Newline: 2},
 	"switchy":    {Name: "switchy", Dispatch: 60, MinRules: 2, MaxRules: 6, Depth: 3, AltMin: 3, AltMax: 6, SeqMax: 3, WTerm: 22, WSeq: 16, WAlt: 30, WOpt: 6, WStar: 5, WPlus: 4, WAnd: 5, WNot: 5, WCap: 4, WRef: 10, WAct: 4, WPred: 1, WState: 0, Hostile: 6, Newline: 1},
-	"backtracky": {Name: "backtracky", MemoSplice: 50, MinRules: 2, MaxRules: 5, Depth: 3, AltMin: 2, AltMax: 4, SeqMax: 4, WTerm: 18, WSeq: 22, WAlt: 22, WOpt: 5, WStar: 5, WPlus: 4, WAnd: 6, WNot: 4, WCap: 10, WRef: 12, WAct: 10, WPred: 1, WState: 0, Hostile: 3, Newline: 1, SharedPrefix: 60},
-	"deep":       {Name: "deep", MinRules: 3, MaxRules: 7, Depth: 4, AltMin: 2, AltMax: 3, SeqMax: 3, WTerm: 14, WSeq: 22, WAlt: 12, WOpt: 6, WStar: 6, WPlus: 6, WAnd: 2, WNot: 2, WCap: 14, WRef: 18, WAct: 8, WPred: 1, WState: 0, Hostile: 10, Newline: 2},
+	"backtracky": {Name: "backtracky", MemoSplice: 50, CaptureOnly: 35, MinRules: 2, MaxRules: 5, Depth: 3, AltMin: 2, AltMax: 4, SeqMax: 4, WTerm: 18, WSeq: 22, WAlt: 22, WOpt: 5, WStar: 5, WPlus: 4, WAnd: 6, WNot: 4, WCap: 10, WRef: 12, WAct: 10, WPred: 1, WState: 0, Hostile: 3, Newline: 1, SharedPrefix: 60},
+	"deep":       {Name: "deep", CaptureOnly: 10, MinRules: 3, MaxRules: 7, Depth: 4, AltMin: 2, AltMax: 3, SeqMax: 3, WTerm: 14, WSeq: 22, WAlt: 12, WOpt: 6, WStar: 6, WPlus: 6, WAnd: 2, WNot: 2, WCap: 14, WRef: 18, WAct: 8, WPred: 1, WState: 0, Hostile: 10, Newline: 2},
 	"erry":       {Name: "erry", RefHeavy: true, MinRules: 4, MaxRules: 7, Depth: 3, AltMin: 2, AltMax: 3, SeqMax: 5, WTerm: 14, WSeq: 30, WAlt: 10, WOpt: 6, WStar: 5, WPlus: 6, WAnd: 2, WNot: 2, WCap: 14, WRef: 30, WAct: 2, WPred: 1, WState: 0, Hostile: 15, Newline: 20},
-	"actiony":    {Name: "actiony", MinRules: 2, MaxRules: 5, Depth: 3, AltMin: 2, AltMax: 3, SeqMax: 5, WTerm: 14, WSeq: 26, WAlt: 14, WOpt: 8, WStar: 8, WPlus: 8, WAnd: 5, WNot: 3, WCap: 16, WRef: 12, WAct: 24, WPred: 1, WState: 0, Hostile: 4, Newline: 2, SharedPrefix: 40},
+	"actiony":    {Name: "actiony", CaptureOnly: 10, MinRules: 2, MaxRules: 5, Depth: 3, AltMin: 2, AltMax: 3, SeqMax: 5, WTerm: 14, WSeq: 26, WAlt: 14, WOpt: 8, WStar: 8, WPlus: 8, WAnd: 5, WNot: 3, WCap: 16, WRef: 12, WAct: 24, WPred: 1, WState: 0, Hostile: 4, Newline: 2, SharedPrefix: 40},
 	"liney":      {Name: "liney", MinRules: 2, MaxRules: 5, Depth: 3, AltMin: 2, AltMax: 4, SeqMax: 5, WTerm: 26, WSeq: 24, WAlt: 14, WOpt: 6, WStar: 6, WPlus: 6, WAnd: 3, WNot: 3, WCap: 6, WRef: 8, WAct: 3, WPred: 1, WState: 0, Hostile: 25, Newline: 25},
 }
 
@@ -47,6 +48,7 @@ type genState struct {
 	ruleMust []bool // rule can only succeed by consuming (known for rules generated so far)
 	known    []bool
 	rules    []*Rule
+	noNames  bool // inside a capture-only backtrack point: no actions, no references
 }
 
 func (s *genState) pct(p int, label string) bool {
@@ -163,6 +165,9 @@ func (s *genState) mustConsume(e *Expr) bool {
 }
 
 func (s *genState) filler() *Expr {
+	if s.noNames {
+		return &Expr{K: KPred, Pred: 0}
+	}
 	// a non-consuming element that may be sprinkled into sequences
 	switch k := rapid.IntRange(0, 99).Draw(s.t, "filler"); {
 	case k < 60 || s.p.WPred+s.p.WState == 0:
@@ -207,6 +212,19 @@ func (s *genState) expr(i, depth int, must, guarded bool) *Expr {
 		x -= o.w
 	}
 	switch kind {
+	case "alt", "opt", "star", "plus", "and", "not":
+		if s.pct(p.CaptureOnly, "caponly") {
+			// the whole backtrack point is built from terminals and captures only: the only
+			// tokens it can leave behind are capture tokens
+			saved := s.p
+			s.p.WRef, s.p.WAct, s.p.WPred, s.p.WState, s.p.CaptureOnly = 0, 0, 0, 0, 0
+			s.p.WCap += 25
+			savedNo := s.noNames
+			s.noNames = true
+			defer func() { s.p, s.noNames = saved, savedNo }()
+		}
+	}
+	switch kind {
 	case "term":
 		return s.term()
 	case "seq":
@@ -236,6 +254,24 @@ func (s *genState) expr(i, depth int, must, guarded bool) *Expr {
 		e := &Expr{K: KAlt}
 		if s.pct(p.Dispatch, "dispatch") {
 			return s.dispatch(i, depth, must, guarded)
+		}
+		if s.noNames && s.pct(50, "capfail") {
+			// every alternative captures the same prefix and then needs a different tail:
+			// the earlier ones complete their capture and fail afterwards
+			prefix := s.term()
+			for j := 0; j < n; j++ {
+				var head *Expr
+				switch rapid.IntRange(0, 2).Draw(t, "capshape") {
+				case 0:
+					head = Un(KCap, prefix.Clone())
+				case 1:
+					head = Seq(Un(KCap, prefix.Clone()), Un(KCap, s.term()))
+				default:
+					head = Un(KCap, Seq(prefix.Clone(), Un(KOpt, Un(KCap, s.term()))))
+				}
+				e.Kids = append(e.Kids, Seq(head, s.term()))
+			}
+			return e
 		}
 		if s.pct(p.SharedPrefix, "shared") {
 			// alternatives sharing a prefix (with captures/actions inside the prefix)
